@@ -238,11 +238,24 @@ func (e *Exec) livenessMonitor() {
 	simrt.Fair(true)
 	const bound = 60000
 	start := simrt.Steps()
+	idleRounds := 0
 	for md.pending > 0 && simrt.Steps()-start < bound {
+		before := simrt.Steps()
 		simrt.Quiesce(2000, 2)
 		if e.viol != nil {
 			simrt.Fair(false)
 			return
+		}
+		if simrt.Steps() == before {
+			// only timers fire (an idle waker sleeping again and again) while
+			// the pending calls stay blocked: leave it to the deadlock detector
+			idleRounds++
+			if idleRounds > 20 {
+				simrt.Fair(false)
+				return
+			}
+		} else {
+			idleRounds = 0
 		}
 		if !anyoneElseCanRun() {
 			// nobody can make progress: leave it to the scheduler's deadlock
